@@ -59,15 +59,20 @@ Proof. exact retry_update_step_covers. Qed.
 Print Assumptions C14_retry_step_keeps_cover.
 
 (* fix 8844901, positive: a retry result meeting an object that still carries our Error status is always
-   written (Done, or Error + re-queued with its origRev), whatever revision a foreign writer gave it *)
+   written (Done, or Error + re-queued with its origRev), whatever revision a foreign writer gave it; the
+   foreign writer's data (o_aux) is kept, and (fix 1583841) the retry is queued with the object just written,
+   not with the stale reconciled one *)
 Theorem C14_retry_commits_over_foreign_write : forall fixed now t q r t' q' cur rv, keyed t ->
   t_live t (o_pk (r_obj r)) = Some (cur, rv) -> o_kind cur = Error -> r_rev r <> r_orig r ->
   commit_one fixed true now (t, q) r = (t', q') ->
   t_rev t' = t_rev t + 1 /\
   (exists o', slot_of t' (o_pk (r_obj r)) = Some (Live o' (t_rev t + 1)) /\
               o_kind o' = (if r_ok r then Done else Error) /\
-              o_ver o' = (if rv =? r_rev r then o_ver (r_obj r) else o_ver cur)) /\
-  q' = (if r_ok r then q else r_add q (r_obj r) (t_rev t + 1) (if fixed then r_orig r else r_rev r) false now).
+              o_ver o' = (if rv =? r_rev r then o_ver (r_obj r) else o_ver cur) /\
+              o_aux o' = (if rv =? r_rev r then o_aux (r_obj r) else o_aux cur)) /\
+  q' = (if r_ok r then q
+        else r_add q (if rv =? r_rev r then r_obj r else with_status cur Error (t_nextid t)) (t_rev t + 1)
+                   (if fixed then r_orig r else r_rev r) false now).
 Proof. exact retry_commits_over_foreign_write. Qed.
 Print Assumptions C14_retry_commits_over_foreign_write.
 
@@ -144,7 +149,7 @@ Proof. exact faults_off_no_new_retries. Qed.
 Print Assumptions C14_faults_off_no_new_retries.
 
 Example C14_nonvacuous :
-  forall pk, covered (fun _ _ => False) (t_insert (t_empty false) (mkObj 1 1 Pending 1)) 0 [] (r_new 10 40) pk.
+  forall pk, covered (fun _ _ => False) (t_insert (t_empty false) (mkObj 1 1 Pending 1 0)) 0 [] (r_new 10 40) pk.
 Proof.
   intro pk. destruct (N.eq_dec pk 1) as [E|E].
   - subst pk. vm_compute. left. reflexivity.
@@ -338,7 +343,7 @@ Print Assumptions C14_converges_to_target.
 Example C14_target_equals_table_nonvacuous :
   reach Converge.ex_cf ex_final /\ quiescent (fst ex_final) (snd ex_final) /\
   live_objs (e_tab (fst ex_final)) = [(1, 1, 2); (3, 3, 2); (4, 4, 2)] /\
-  slot_of (e_tab (fst ex_final)) 2 = Some (Dead (mkObj 2 2 Done 5) 6) /\
+  slot_of (e_tab (fst ex_final)) 2 = Some (Dead (mkObj 2 2 Done 5 0) 6) /\
   aget 1 (e_target (fst ex_final)) = Some 1 /\ aget 2 (e_target (fst ex_final)) = None /\
   aget 3 (e_target (fst ex_final)) = Some 3 /\ aget 4 (e_target (fst ex_final)) = Some 4.
 Proof. exact target_equals_table_nonvacuous. Qed.
